@@ -62,3 +62,12 @@ Definition from_kkt (n m : nat) (H J : mat) : option scaling :=
   | Some w => Some (mk_scaling (map Z.opp (firstn n w)) (skipn n w) 0)
   | None => None
   end.
+
+(* scale.py create_scaling: the scaling a Solver computes for itself from the problem at the scaling point
+   (kind 0: ScalingType.Nominal, 1: GradJac, otherwise KKT) *)
+Definition create_scaling (kind : nat) (P : problem) (xs ys : vec) : option scaling :=
+  match kind with
+  | 0%nat => Some (from_nominal xs (p_cons P xs) 1)
+  | 1%nat => Some (from_grad_jac (p_grad P xs) (p_jac P xs))
+  | _ => from_kkt (nvars P) (ncons P) (p_hess P xs ys) (p_jac P xs)
+  end.
